@@ -217,6 +217,18 @@ def replay(cid, path):
     faulthandler.cancel_dump_traceback_later()
     sigs = [v['sig'] for v in res.get('violations', [])]
     want = doc.get('signature')
+    # open known findings are not violations (unless the replay file is
+    # about one of them)
+    try:
+        with open(FINDINGS_FILE) as f:
+            known = {x['signature'] for x in json.load(f)
+                     if x.get('status') == 'open'}
+    except OSError:
+        known = set()
+    for sg in sigs:
+        if sg in known and sg != want:
+            print('KNOWN-FINDING: property=%s %s' % (cid, sg))
+    sigs = [sg for sg in sigs if sg not in known or sg == want]
     print('REPLAY property=%s file=%s expected=%s got=%s' %
           (cid, path, want, sigs))
     if want in sigs:
